@@ -145,7 +145,7 @@ func c03(tier string) {
 	ctx.Rule = "seeded profiles distributing 0-6 single-atom validations over violation/warning/info (empty levels, missing level keys, names listed but undefined, defined but unlisted, one name in two levels, twice in one level) x graphs with 0-5 target nodes x report configurations (creation time on/off, 5 clocks incl. non-UTC zones, 4 schema IRIs) through the four Validate* entry points; " +
 		"non-trivial & distinct = (profile, graph, configuration) triple with at least one expected result"
 	ctx.Assumptions = []string{"configured clocks have whole seconds (RFC 3339 without fractional part)", "truth of each validation on each node is known by construction (single atoms on single-valued properties)"}
-	n := ctx.N(400, 6000)
+	n := ctx.N(1280, 12000)
 	if !ctx.IsShard() {
 		ctx.RunShards()
 	} else {
@@ -156,11 +156,41 @@ func c03(tier string) {
 	ctx.Finish()
 }
 
+type c03Seen struct {
+	ptext, dtext, name string
+	expected           []string
+}
+
 func c03Workload(ctx *lib.Ctx, n int) {
+	var early []c03Seen
+	defer func() {
+		// the first profiles of this worker again, after all the others were compiled in between (>= 40 distinct
+		// profile texts): what a profile means must not depend on how many other profiles the process has seen
+		for _, e := range early {
+			o := lib.Validate(e.ptext, e.dtext)
+			ctx.Count("profiles_revisited_after_many_others", 1)
+			rep, err := parseOK(o)
+			base := map[string]any{"profile": e.ptext, "data": e.dtext, "expected": e.expected}
+			if err != nil {
+				ctx.Violation("call-failed", "revisited profile: "+err.Error(), base)
+				continue
+			}
+			got := map[string]bool{}
+			for _, x := range rep.Results {
+				got[x.Severity+"\x00"+x.Name+"\x00"+x.Focus] = true
+			}
+			if g := lib.SortedKeys(got); !lib.SetEq(g, e.expected) || rep.ProfileName != e.name {
+				ctx.Violation("results", fmt.Sprintf("profile %q validated again after many other profiles: profileName %q, results %q, expected %q", e.name, rep.ProfileName, readable(g), readable(e.expected)), base)
+			}
+		}
+	}()
 	ctx.ForEach(n, func(i int) {
 		r := lib.CaseRand(ctx.Seed, 4, i)
 		c := genLevelsCase(r, i)
 		ptext, dtext := c.prof.Text(), c.g.CanonicalJSONLD()
+		if len(early) < 10 {
+			early = append(early, c03Seen{ptext, dtext, c.prof.Name, c.expected})
+		}
 		cfgA, cfgB := genCfg(r), genCfg(r)
 		entry := r.Intn(3)
 		run := func(cf cfgChoice) lib.Outcome {
